@@ -189,6 +189,12 @@ def run_cycles(fm0, writer, reader, sc, ext, n, pid, binary=False):
     decoy = build.build({"root": build.feat("Decoy", [build.rel(0, 1, [build.feat("DecoyChild")])]), "ctcs": []})
     if not isinstance(lib(writer, path, decoy), Raised):
         lib(reader, path)
+    # ... and then a twin of the model itself whose attribute values have neighbouring types (True <-> 1, 2 <-> 2.0):
+    # Python calls these equal, so a writer that compares what is on disk with what it is about to write, or a
+    # cache keyed on values, takes the stale file for the model
+    twin = _type_confused_twin(fm0)
+    if twin is not None:
+        lib(writer, path, twin)
     for k in range(1, n + 1):
         ret = lib(writer, path, cur)
         if isinstance(ret, Raised):
@@ -223,6 +229,46 @@ def run_cycles(fm0, writer, reader, sc, ext, n, pid, binary=False):
             if obss[k - 1] != obss[k - 2]:
                 out.append((f"{pid}.model-not-idempotent", f"cycle {k} model differs from cycle {k - 1}: {_first_obs_diff(obss[k - 2], obss[k - 1])}"))
     return out, texts, models, obss
+
+
+def _type_confused_twin(fm):
+    snap = build.observe(fm)
+    if snap.get("problems"):
+        return None
+    try:
+        spec = build.spec_from_observation(snap)
+    except (KeyError, ValueError, TypeError):
+        return None
+    changed = [False]
+
+    def conf(v):
+        if isinstance(v, bool):
+            changed[0] = True
+            return int(v)
+        if isinstance(v, int):
+            changed[0] = True
+            return {"$float": repr(float(v))} if abs(v) < 2 ** 53 else v
+        if isinstance(v, dict) and set(v) == {"$float"}:
+            f = float(v["$float"])
+            if f == int(f) and abs(f) < 2 ** 53:
+                changed[0] = True
+                return int(f) if f not in (0.0, 1.0) else bool(f)
+            return v
+        if isinstance(v, list):
+            return [conf(x) for x in v]
+        if isinstance(v, dict):
+            return {k: conf(x) for k, x in v.items()}
+        return v
+    for f, _ in build.iter_feats(spec["root"]):
+        for a in f["attrs"]:
+            if "value" in a:
+                a["value"] = conf(a["value"])
+    if not changed[0]:
+        return None
+    try:
+        return build.build(spec)
+    except Exception:  # noqa: BLE001 - the twin is only a decoy
+        return None
 
 
 def _first_diff(a: bytes, b: bytes) -> str:
